@@ -105,3 +105,45 @@ prop('C02', 'exact ownership accounting',
      'decides a branch (PAY-USED), debts are cleared only by the pointer-keyed CAS (PAY-CAS), and no borrow slot stays '
      'occupied after the function that filled it returns without a guard owning it (SLOT-CLOSED).',
      'Which of two racing pay() calls wins (delegated to the single compare_exchange); reclamation timing relative to std Arc semantics.')
+
+
+def _usercall_inventory(fx, col):
+    """USERCALL-STATE (a): the list of user-code call sites in library code reachable from the API"""
+    g = P.graph(fx)
+    roots = P.root_groups(fx, ('default', 'fill'), ('r', 'g', 'w', 'c', 'a', 'k', 'f', 's'))
+    seen, parent, _ = g.reach(list(roots.values()))
+    bodies = {}
+    for i in seen:
+        b = g.body_of.get(i)
+        if b is not None and b.crate is fx.lib:
+            bodies[b.key] = b
+    n = 0
+    kinds = {}
+    for b in bodies.values():
+        for bb, t in b.calls(include_cleanup=False):
+            k = L.user_call_kind(t)
+            if k:
+                n += 1
+                kinds[k] = kinds.get(k, 0) + 1
+        for bb, t in b.drops(include_cleanup=False):
+            if t.get('has_param'):
+                n += 1
+                kinds['drop of a generic value'] = kinds.get('drop of a generic value', 0) + 1
+    col.ok('USERCALL', 'inventory', '%d user-code call sites in %d reachable library bodies: %s' % (n, len(bodies), sorted(kinds.items())))
+    col.floor('USERCALL', 'user-code call sites', n, 25)
+    # RAII types that carry protocol resources have Drop impls
+    for adt in ('arc_swap::strategy::hybrid::HybridProtection', 'arc_swap::debt::list::NodeReservation', 'arc_swap::debt::list::LocalNode', 'arc_swap::ArcSwapAny'):
+        a = fx.lib.adts.get(adt)
+        if col.anchor('USERCALL', 'struct ' + adt, a is not None):
+            col.add('USERCALL', '%s|Drop impl' % adt, a['has_drop'], 'protocol resource released by its destructor on unwind')
+
+
+prop('C18', 'panics in user code leave the container consistent',
+     [_usercall_inventory, L.rule_ledger_unwind, T.rule_txn_closed, R.rule_cover_all],
+     'Decides: the complete list of user-code call sites reachable from the API (trait methods on type parameters, closure '
+     'parameters, drops of generic values, RefCnt::dec) and, for each, that no raw (non-RAII) reference count is held '
+     'across it: the ledger evaluated along every unwind edge must reach `resume` with balance 0 (LEDGER-UNWIND; direct '
+     'sites and sites that reach user code transitively are reported separately); no user code runs inside an open '
+     'helping transaction (TXN-CLOSED); the writer reservation is RAII and spans help and pay (RAII-SPAN); the protocol '
+     'resource types have Drop impls.',
+     'That the container still holds a legitimately stored value as a run-time fact; only that no write to the cell or a slot is left half-done when user code runs.')
